@@ -32,7 +32,7 @@ def main():
             'level_claimed': {
                 'category': 'model_checking',
                 'text': m.LEVEL_TEXT,
-                'design_ref': f'DESIGN.md section 5, {pid}',
+                'design_ref': f'DESIGN.md section 4 ({pid}); findings section 5',
             },
             'level_note': m.LEVEL_NOTE,
             'technique': m.TECHNIQUE,
@@ -64,7 +64,13 @@ def main():
         'notes': 'Solver-based checking only. exit 0 = no reproduced '
                  'violation; 1 = reproduced violation (VIOLATION line); '
                  '2 = harness error. Evidence lists every obligation with '
-                 'its verdict (confirmed / inconclusive) and bound.',
+                 'its verdict (confirmed / inconclusive / not-run) and bound. '
+                 'The thorough tier runs its obligations shallow-to-deep '
+                 'under VERIF_WALL_BUDGET (default 900 s) with each slice '
+                 'capped at VERIF_SLICE_CAP (default 600 CPU-s); raise both '
+                 'to go deeper. known_findings.json: F4 (C11) is the only '
+                 'open finding; 19 defects were repaired by fix: commits in '
+                 '/repo. seeded/: 80 seeded changes with per-check results.',
     }
     with open(os.path.join(ROOT, 'MANIFEST.json'), 'w') as f:
         json.dump(manifest, f, indent=1)
